@@ -332,7 +332,8 @@ func enumPoints(r *vh.Rand, target string, old []byte, oldPresent bool, ops []Fs
 }
 
 type crashResult struct {
-	img, ld string // Coq terms
+	img, ld string // Coq terms (img = "" : IOther other, rendered when the case is assembled)
+	other   []byte
 	class   string // old|new|err|other
 	err     error
 }
@@ -362,7 +363,7 @@ func evalPoint(t *testing.T, store int, target string, old []byte, oldPresent bo
 	case len(tb) < len(nw) && bytes.Equal(tb, nw[:len(tb)]):
 		res.img = fmt.Sprintf("(IPrefix %d)", len(tb))
 	default:
-		res.img = vh.App("IOther", coqBytes(tb))
+		res.other = append([]byte(nil), tb...)
 	}
 	canon, err := loadFile(store, filepath.Join(dir, target))
 	switch {
@@ -381,12 +382,16 @@ func evalPoint(t *testing.T, store int, target string, old []byte, oldPresent bo
 // crashCase evaluates every point of one recorded snapshot sequence, reports oracle violations, adds the Coq case.
 func crashCase(t *testing.T, run *vh.Run, r *vh.Rand, store int, target string, old []byte, oldPresent bool, nw []byte,
 	ops []FsOp, pts []Point, oldCanon, newCanon string) {
-	var terms []string
+	var results []crashResult
 	for _, p := range pts {
 		res := evalPoint(t, store, target, old, oldPresent, nw, ops, p, oldCanon, newCanon)
-		terms = append(terms, coqPoint(p, res.img, res.ld))
+		results = append(results, res)
 		run.Count("crash_image_outcome", storeName(store)+"/"+res.class)
-		run.Count("crash_image_kind", strings.Fields(strings.Trim(res.img, "("))[0])
+		if res.img == "" {
+			run.Count("crash_image_kind", "IOther")
+		} else {
+			run.Count("crash_image_kind", strings.Fields(strings.Trim(res.img, "("))[0])
+		}
 		if res.class == "err" || res.class == "other" {
 			c := Case{Kind: "crash", Store: store, Target: target, Old: old, OldPresent: oldPresent, New: nw, Ops: ops,
 				Points: []Point{p}, OldCanon: oldCanon, NewCanon: newCanon}
@@ -399,15 +404,24 @@ func crashCase(t *testing.T, run *vh.Run, r *vh.Rand, store int, target string, 
 			}
 		}
 	}
-	oldTerm := "None"
-	if oldPresent {
-		oldTerm = vh.Some(coqBytes(old))
-	}
-	// one Coq case per chunk of points (the shards are evaluated in parallel)
+	// one Coq case per chunk of points (the shards are evaluated in parallel); everything is rendered per chunk
+	// because big blobs are bound case by case
 	const chunk = 100
 	for lo := 0; lo < len(pts); lo += chunk {
 		hi := min(lo+chunk, len(pts))
-		term := fmt.Sprintf("CCrash %d %s %s %s\n  %s\n  [%s]", store, vh.Str(target), oldTerm, coqBytes(nw), coqOps(ops), strings.Join(terms[lo:hi], ";\n   "))
+		oldTerm := "None"
+		if oldPresent {
+			oldTerm = vh.Some(coqBytes(old))
+		}
+		var terms []string
+		for i := lo; i < hi; i++ {
+			img := results[i].img
+			if img == "" {
+				img = vh.App("IOther", coqBytes(results[i].other))
+			}
+			terms = append(terms, coqPoint(pts[i], img, results[i].ld))
+		}
+		term := fmt.Sprintf("CCrash %d %s %s %s\n  %s\n  [%s]", store, vh.Str(target), oldTerm, coqBytes(nw), coqOps(ops), strings.Join(terms, ";\n   "))
 		js := Case{Kind: "crash", Store: store, Target: target, Old: old, OldPresent: oldPresent, New: nw, Ops: ops, Points: pts[lo:hi],
 			OldCanon: oldCanon, NewCanon: newCanon}
 		addCase(run, term, js, hi-lo > 3)
@@ -664,8 +678,10 @@ func TestCheck(t *testing.T) {
 			chains = append(chains, chainSpec{r.Intn(2), []int{r.Intn(4), r.Intn(3)}, r.Intn(4) - 1, r.Chance(1, 3)})
 		}
 		if thorough {
-			chains = append(chains, chainSpec{storeNflog, []int{2000, 1}, 5, false}, chainSpec{storeSilence, []int{2000, 1}, 5, false},
-				chainSpec{storeNflog, []int{300}, -1, true}, chainSpec{storeSilence, []int{300}, 100, false})
+			// the big stores first and last, so that their (megabyte-sized) cases land in different shards
+			chains = append([]chainSpec{{storeNflog, []int{2000, 1}, 5, false}}, chains...)
+			chains = append(chains, chainSpec{storeNflog, []int{300}, -1, true}, chainSpec{storeSilence, []int{300}, 100, false},
+				chainSpec{storeSilence, []int{1200, 1}, 5, false})
 		}
 		for _, cs := range chains {
 			c := genChain(r.Fork(), cs.store, cs.sizes, cs.initN, cs.tick)
